@@ -248,7 +248,7 @@ namespace GeographicLib {
      * calculations).  The object can be set with a call to Geodesic::Line.
      * Use Init() to test whether object is still in this uninitialized state.
      **********************************************************************/
-    GeodesicLine() : _caps(0U) {}
+    GeodesicLine() : _exact(false), _caps(0U) {}
     ///@}
 
     /** \name Position in terms of distance
